@@ -175,6 +175,13 @@ fn full_levels(m: &Model, thorough: bool, forms1: &[&str], forms_k2: &[&str], fo
     ));
     // a directive and an ordinary comment together, around the argument kinds that are not printed verbatim
     v.push(directive_args_level(m, thorough, true));
+    // a directive in front of a closure body that spans lines: the protected body keeps its line break
+    v.push(lvl(
+        "arg/closure argument/directive+line break",
+        sweep::skeletons(m, &["arg"], &[2], &[Size::Short]).into_iter().filter(|sk| m.prods[sk.spine[0].0].name == "clos1").collect(),
+        &["off_bc", "nl"],
+        &["off_bc", "nl"],
+    ));
     // chains written over several, over-indented lines (two line-break deviations)
     v.push(lvl(
         "codeblock,let,arg/chains/two over-indented line breaks",
@@ -285,9 +292,8 @@ fn directive_args_level(m: &Model, thorough: bool, with_comment: bool) -> Level 
                 matches!(n, "named" | "spread" | "clos1") || (thorough && matches!(n, "dict1" | "dict_keyed" | "dict_spread" | "let_fn"))
             })
             .collect(),
-        // (a line break too: a protected node that spans lines is reproduced with its line break)
-        if with_comment { &["off_bc", "bc", "nl"] } else { &["off_bc", "off_lc"] },
-        if with_comment { &["off_bc", "bc", "nl"] } else { &[] },
+        if with_comment { &["off_bc", "bc"] } else { &["off_bc", "off_lc"] },
+        if with_comment { &["off_bc", "bc"] } else { &[] },
     )
 }
 
